@@ -48,7 +48,7 @@ def main():
                         continue
                 env = dict(os.environ, VERIF_REPO=scratch, VERIF_EVIDENCE_DIR=evid)
                 t0 = time.time()
-                r = subprocess.run([os.path.join(VERIF, 'check'), m['prop'], '--tier', a.tier], env=env, stdout=subprocess.PIPE, stderr=subprocess.STDOUT, text=True)
+                r = subprocess.run([os.path.join(VERIF, 'check'), m['prop'], '--tier', m.get('tier', a.tier)], env=env, stdout=subprocess.PIPE, stderr=subprocess.STDOUT, text=True)
                 out = r.stdout
                 if m['kind'] == 'breaking':
                     named = [l for l in out.splitlines() if ('VIOLATION-DETAIL' in l or 'UNPROVEN-DETAIL' in l) and m.get('expect', '') in l]
